@@ -613,3 +613,9 @@ Definition check_node (c : (node * node) * (obs * obs * obs * obs)) : bool :=
   let '((a, b), (oab, oba, oaa, oan)) := c in
   obs_eqb (obs_of_ndiff a (node_diff a b)) oab && obs_eqb (obs_of_ndiff b (node_diff b a)) oba
   && obs_eqb (obs_of_ndiff a (node_diff a a)) oaa && obs_eqb (obs_of_ndiff a (node_diff_opt a None)) oan.
+
+(* histories: the comparison is a function of its two operands only; a history of comparisons on long-lived
+   slivers is the list of the comparisons of the successive states *)
+Definition run_history (h : list (node * node)) : list (res (option ndiff)) :=
+  map (fun p => node_diff (fst p) (snd p)) h.
+Definition check_node_history (h : list ((node * node) * (obs * obs * obs * obs))) : bool := forallb check_node h.
